@@ -1,7 +1,7 @@
 #!/venv/bin/python
 """Runs the mutation self-test matrix and writes selftest/kill_matrix.json (used by bin/design_tables.py).
 
-usage: kill_matrix.py [--lanes N] [--only catalogue|reverts|seeds|neutral|own] [--props C01,C02]
+usage: kill_matrix.py [--lanes N] [--only catalogue|reverts|seeds|neutral|own] [--props C01,C02] [--match REGEX-on-change-name]
 Every (change, property) pair runs `selftest/mutate.py <change> <property>` (scratch copy of /repo, quick tier)."""
 import json, os, pathlib, re, subprocess, sys, time
 from concurrent.futures import ThreadPoolExecutor
@@ -78,6 +78,9 @@ def main():
     if "--props" in a:
         props = a[a.index("--props") + 1].split(",")
     jobs = pairs(only, props)
+    if "--match" in a:
+        rx = re.compile(a[a.index("--match") + 1])
+        jobs = [j for j in jobs if rx.search(j[0])]
     print("%d runs, %d lanes" % (len(jobs), lanes), flush=True)
     with ThreadPoolExecutor(lanes) as ex:
         res = list(ex.map(run, jobs))
